@@ -83,6 +83,32 @@ def sanitizers(F):
     return quote, line
 
 
+def line_splitters(F):
+    """workspace functions that split a text into lines and know both line-break characters ('\n' and a lone '\r')"""
+    out = set()
+    for b in F.bodies.values():
+        if b.crate != CR or b.kind != "fn":
+            continue
+        cs = set()
+        for k, x in F.bodies.items():
+            if k == b.id or k.startswith(b.id + "::{"):
+                cs |= char_consts(x)
+        if "\n" in cs and "\r" in cs and "\"" not in "".join(cs):
+            out.add(b.id)
+    # functions built on a splitter (single_line -> doc_lines)
+    changed = True
+    while changed:
+        changed = False
+        for b in F.bodies.values():
+            if b.crate != CR or b.kind != "fn" or b.id in out:
+                continue
+            if any(name(c) in out for _, c in b.calls()) and not any(name(c).endswith("::lines") for _, c in b.calls()):
+                if b.local_ty_str(0).startswith("alloc::string::String"):
+                    out.add(b.id)
+                    changed = True
+    return out
+
+
 def run(chk, F, tier):
     chk.rule("R40a", "panic surface of the schema converter")
     chk.rule("R40b", "schema-derived strings in quoted / one-line positions of the emitted text pass a sanitiser")
@@ -92,6 +118,7 @@ def run(chk, F, tier):
     n, _, _ = panicsurface.audit(chk, F, "R40a", "C40", entries, lambda b: b.crate == CR)
     chk.floor("converter entry points", len(entries), 5)
     quote_san, line_san = sanitizers(F)
+    line_san = line_san | line_splitters(F)
     chk.unit("quote sanitisers", len(quote_san))
     chk.unit("line sanitisers", len(line_san))
 
@@ -110,6 +137,23 @@ def run(chk, F, tier):
         return prov.Prov(F, source=source, derive=derive, max_depth=16)
     PQ = mk(quote_san)
     PL = mk(line_san | quote_san)
+    splitters = line_splitters(F)
+    chk.unit("line splitters that know CR and LF", len(splitters))
+
+    def mk_doc():
+        def derive(callee, args, c):
+            if callee in splitters or callee in quote_san:
+                return {("SAN", callee)}
+            if callee.endswith("::lines"):
+                return {("LINES", "str::lines")}       # does not split at a lone CR
+            return None
+
+        def source(b, r):
+            if r[0] == "const":
+                return {("CONST", "")}
+            return None
+        return prov.Prov(F, source=source, derive=derive, max_depth=16)
+    PD = mk_doc()
     nsites = 0
     for b in F.bodies.values():
         if b.crate != CR or "::tests::" in b.id or "::test" in b.id:
@@ -144,6 +188,25 @@ def run(chk, F, tier):
                 after = tpl[i + 1][1] if i + 1 < len(tpl) and tpl[i + 1][0] == "lit" else ""
                 quoted = before.endswith('"') and after.startswith('"')
                 oneline = before.endswith("# ") and before.lstrip().startswith(("---|", "\"")) or (before.endswith("# "))
+                docline = not quoted and not oneline and before.strip() == "---" and before.endswith(" ") and after.startswith("\n")
+                if docline:
+                    nsites += 1
+                    xl = dataflow.operand_local(arr[ai])
+                    labs = set()
+                    for r in dataflow.roots(b, xl) if xl is not None else ():
+                        if r[0] == "call":
+                            cc = b.blocks[r[1]][2][1]
+                            for a in cc["a"]:
+                                labs |= PD.operand_labels(b, a)
+                    bad = {l for l in labs if l[0] in ("ENTRY_ARG", "CALL", "CLOSURE_ARG", "UNKNOWN", "LINES")}
+                    key = "docline#%d@%s" % (ai, b.id)
+                    chk.check(not bad, "R40b", key,
+                              "%s writes a schema-derived text as one `--- ` comment line although it may still contain a line break (%s): `str::lines` does "
+                              "not split at a lone carriage return, which the Lua lexer treats as the end of the comment, so the rest of the text is parsed "
+                              "as code" % (b.id.split("::")[-1], sorted({l[0] for l in bad})), b.loc(c["l"]),
+                              witness={"labels": sorted(map(str, labs))[:8]},
+                              sample={"rule": "R40b", "site": key, "verdict": "split at LF and at CR before it is written"})
+                    continue
                 if not quoted and not oneline:
                     continue
                 nsites += 1
